@@ -3,11 +3,11 @@ C15 — built-in validators decide their documented predicate and explain failur
 
 Model A: `Flatland/C15.lean`; specification B: `Flatland/Spec/C15.lean`.
 
-Main theorem `decides_partial`: whenever the documentation makes a promise about a validator on
-an element view (`documented v e = some d`), the validator returns exactly the verdict `d`
-without raising and notes a message iff the verdict is false — for every class except the two
-recorded defects (`MapEqual`'s default transform, D-C15-7; a raw key that is not text, D-C15-6),
-which are the negation witnesses of the full statement `C15_Full`.  The network validators
+Main theorem `C15_full` (= `decides`): whenever the documentation makes a promise about a
+validator on an element view (`documented v e = some d`), the validator returns exactly the
+verdict `d` without raising and notes a message iff the verdict is false — for every class, with
+no side condition (the former exceptions D-C15-5/6/7 are fixed in /repo: e508833, 5e93603,
+7308ea3, and the model follows the repaired code).  The network validators
 (`IsEmail`, `URL*`) are outside `documented` (urlparse/idna are opaque): this part of C15 rests
 on correspondence only.
 -/
@@ -291,11 +291,46 @@ theorem labelsJoin_ok (l : List Val) (h : ∀ v ∈ l, ∃ s, v = .str s) :
     | cons w ws =>
       exact ⟨s ++ [',', ' '] ++ r, by simp [labelsJoin, hr, bind, Except.bind, pure, Except.pure]⟩
 
-theorem decides_mapEqual (k : EqKind) (hk : k ≠ .element) (e : View) (d)
-    (hlab : ∀ g, some g ∈ e.fields → ∃ s, g.label = .str s)
+theorem decides_mapEqual (k : EqKind) (e : View) (d)
     (hd : documented (.mapEqual k) e = some d) : Decides (.mapEqual k) e d := by
   cases k with
-  | element => exact absurd rfl hk
+  | element =>
+    simp only [documented] at hd
+    cases hm : allResolved e.fields with
+    | none => rw [hm] at hd; cases hd
+    | some l =>
+      rw [hm] at hd
+      cases l with
+      | nil => cases hd
+      | cons first rest =>
+        simp only at hd
+        cases htl : textLabels (first :: rest) with
+        | false => rw [htl] at hd; simp at hd
+        | true =>
+          rw [htl] at hd
+          simp only [Bool.not_true, Bool.false_eq_true, if_false, Option.some.injEq] at hd
+          have hres := resolveFields_of_allResolved e.fields (first :: rest) hm
+          subst hd
+          simp only [← pyEq_same]
+          cases hall : rest.all (fun f => pyEq f.value first.value && f.u == first.u) with
+          | true =>
+            refine decides_pass _ _ ?_
+            simp only [verdict, hres, bind, Except.bind, hall]
+            rfl
+          | false =>
+            have hmem : ∀ g ∈ first :: rest, ∃ s, g.label = .str s := by
+              intro g hg
+              have := List.all_eq_true.1 htl g hg
+              cases hl : g.label <;> simp [hl] at this
+              exact ⟨_, rfl⟩
+            obtain ⟨r, hr⟩ := labelsJoin_ok (((first :: rest).dropLast).map (·.label)) (by
+              intro v hv
+              simp only [List.mem_map] at hv
+              obtain ⟨g, hg, rfl⟩ := hv
+              exact hmem g (List.dropLast_subset _ hg))
+            exact decides_fail _ _ "unequal" _ (by
+              simp only [verdict, hres, bind, Except.bind, hall, hr]
+              rfl)
   | value =>
     simp only [documented] at hd
     cases hm : allResolved e.fields with
@@ -305,26 +340,34 @@ theorem decides_mapEqual (k : EqKind) (hk : k ≠ .element) (e : View) (d)
       cases l with
       | nil => cases hd
       | cons first rest =>
-        simp only [Option.some.injEq] at hd
-        have hres := resolveFields_of_allResolved e.fields (first :: rest) hm
-        subst hd
-        simp only [← pyEq_same]
-        cases hall : rest.all (fun f => pyEq f.value first.value) with
+        simp only at hd
+        cases htl : textLabels (first :: rest) with
+        | false => rw [htl] at hd; simp at hd
         | true =>
-          refine decides_pass _ _ ?_
-          simp only [verdict, hres, bind, Except.bind, hall]
-          rfl
-        | false =>
-          have hmem : ∀ g ∈ first :: rest, ∃ s, g.label = .str s :=
-            fun g hg => hlab g (mem_of_allResolved e.fields _ hm g hg)
-          obtain ⟨r, hr⟩ := labelsJoin_ok (((first :: rest).dropLast).map (·.label)) (by
-            intro v hv
-            simp only [List.mem_map] at hv
-            obtain ⟨g, hg, rfl⟩ := hv
-            exact hmem g (List.dropLast_subset _ hg))
-          exact decides_fail _ _ "unequal" _ (by
-            simp only [verdict, hres, bind, Except.bind, hall, hr]
-            rfl)
+          rw [htl] at hd
+          simp only [Bool.not_true, Bool.false_eq_true, if_false, Option.some.injEq] at hd
+          have hres := resolveFields_of_allResolved e.fields (first :: rest) hm
+          subst hd
+          simp only [← pyEq_same]
+          cases hall : rest.all (fun f => pyEq f.value first.value) with
+          | true =>
+            refine decides_pass _ _ ?_
+            simp only [verdict, hres, bind, Except.bind, hall]
+            rfl
+          | false =>
+            have hmem : ∀ g ∈ first :: rest, ∃ s, g.label = .str s := by
+              intro g hg
+              have := List.all_eq_true.1 htl g hg
+              cases hl : g.label <;> simp [hl] at this
+              exact ⟨_, rfl⟩
+            obtain ⟨r, hr⟩ := labelsJoin_ok (((first :: rest).dropLast).map (·.label)) (by
+              intro v hv
+              simp only [List.mem_map] at hv
+              obtain ⟨g, hg, rfl⟩ := hv
+              exact hmem g (List.dropLast_subset _ hg))
+            exact decides_fail _ _ "unequal" _ (by
+              simp only [verdict, hres, bind, Except.bind, hall, hr]
+              rfl)
   | u =>
     simp only [documented] at hd
     cases hm : allResolved e.fields with
@@ -334,25 +377,33 @@ theorem decides_mapEqual (k : EqKind) (hk : k ≠ .element) (e : View) (d)
       cases l with
       | nil => cases hd
       | cons first rest =>
-        simp only [Option.some.injEq] at hd
-        have hres := resolveFields_of_allResolved e.fields (first :: rest) hm
-        subst hd
-        cases hall : rest.all (fun f => f.u == first.u) with
+        simp only at hd
+        cases htl : textLabels (first :: rest) with
+        | false => rw [htl] at hd; simp at hd
         | true =>
-          refine decides_pass _ _ ?_
-          simp only [verdict, hres, bind, Except.bind, hall]
-          rfl
-        | false =>
-          have hmem : ∀ g ∈ first :: rest, ∃ s, g.label = .str s :=
-            fun g hg => hlab g (mem_of_allResolved e.fields _ hm g hg)
-          obtain ⟨r, hr⟩ := labelsJoin_ok (((first :: rest).dropLast).map (·.label)) (by
-            intro v hv
-            simp only [List.mem_map] at hv
-            obtain ⟨g, hg, rfl⟩ := hv
-            exact hmem g (List.dropLast_subset _ hg))
-          exact decides_fail _ _ "unequal" _ (by
-            simp only [verdict, hres, bind, Except.bind, hall, hr]
-            rfl)
+          rw [htl] at hd
+          simp only [Bool.not_true, Bool.false_eq_true, if_false, Option.some.injEq] at hd
+          have hres := resolveFields_of_allResolved e.fields (first :: rest) hm
+          subst hd
+          cases hall : rest.all (fun f => f.u == first.u) with
+          | true =>
+            refine decides_pass _ _ ?_
+            simp only [verdict, hres, bind, Except.bind, hall]
+            rfl
+          | false =>
+            have hmem : ∀ g ∈ first :: rest, ∃ s, g.label = .str s := by
+              intro g hg
+              have := List.all_eq_true.1 htl g hg
+              cases hl : g.label <;> simp [hl] at this
+              exact ⟨_, rfl⟩
+            obtain ⟨r, hr⟩ := labelsJoin_ok (((first :: rest).dropLast).map (·.label)) (by
+              intro v hv
+              simp only [List.mem_map] at hv
+              obtain ⟨g, hg, rfl⟩ := hv
+              exact hmem g (List.dropLast_subset _ hg))
+            exact decides_fail _ _ "unequal" _ (by
+              simp only [verdict, hres, bind, Except.bind, hall, hr]
+              rfl)
 
 theorem decides_notDuplicated (e : View) (d)
     (hd : documented .notDuplicated e = some d) : Decides .notDuplicated e d := by
@@ -492,71 +543,80 @@ theorem decides_hasBetween (lo hi) (e : View) (d)
     subst hd
     exact decides_hasBetween_len lo hi e _ hs rfl
 
+theorem memKey_schema (keys : List Str) (k : Val) :
+    memKey k (schemaVals keys) = declared keys k := by
+  unfold memKey schemaVals declared
+  rw [List.any_map]
+  congr; funext a; simp [pyEq_same]
+
+theorem memKey_given (ks : List Val) (a : Str) : memKey (.str a) ks = given ks a := by
+  unfold memKey given
+  congr; funext k; exact pyEq_same _ _
+
+theorem all_schema_given (keys : List Str) (ks : List Val) :
+    (schemaVals keys).all (fun k => memKey k ks) = keys.all (given ks) := by
+  induction keys with
+  | nil => rfl
+  | cons a rest ih =>
+    simp only [schemaVals, List.map_cons, List.all_cons, memKey_given] at ih ⊢
+    rw [ih]
+
 theorem decides_setWithKnownFields (e : View) (d)
-    (hraw : ∀ ks, e.raw ≠ .pairs ks true)
     (hd : documented .setWithKnownFields e = some d) : Decides .setWithKnownFields e d := by
   simp only [documented] at hd
   cases hr : e.raw with
   | unset => rw [hr] at hd; cases hd; exact decides_pass _ _ (by simp [verdict, hr])
   | none => rw [hr] at hd; cases hd; exact decides_pass _ _ (by simp [verdict, hr])
   | notIterable => rw [hr] at hd; cases hd; exact decides_pass _ _ (by simp [verdict, hr])
-  | badPairs => rw [hr] at hd; cases hd
-  | pairs ks nt =>
-    cases nt with
-    | true => exact absurd hr (hraw ks)
+  | badPairs => rw [hr] at hd; cases hd; exact decides_pass _ _ (by simp [verdict, hr])
+  | pairs ks =>
+    rw [hr] at hd
+    simp only [Option.some.injEq] at hd
+    subst hd
+    have := diffKeys_isEmpty ks (schemaVals e.schemaKeys)
+    simp only [memKey_schema] at this
+    cases hall : ks.all (declared e.schemaKeys) with
+    | true =>
+      rw [hall] at this
+      exact decides_pass _ _ (by simp [verdict, hr, this])
     | false =>
-      rw [hr] at hd
-      simp only [Option.some.injEq] at hd
-      subst hd
-      have := diffKeys_isEmpty ks e.schemaKeys
-      cases hall : ks.all (fun k => e.schemaKeys.contains k) with
-      | true =>
-        rw [hall] at this
-        exact decides_pass _ _ (by simp [verdict, hr, this])
-      | false =>
-        rw [hall] at this
-        exact decides_fail _ _ "unexpected" _ (by simp [verdict, hr, this] <;> rfl)
+      rw [hall] at this
+      exact decides_fail _ _ "unexpected" _ (by simp [verdict, hr, this] <;> rfl)
 
 theorem decides_setWithAllFields (e : View) (d)
-    (hraw : ∀ ks, e.raw ≠ .pairs ks true)
     (hd : documented .setWithAllFields e = some d) : Decides .setWithAllFields e d := by
   simp only [documented] at hd
   cases hr : e.raw with
   | unset => rw [hr] at hd; cases hd; exact decides_pass _ _ (by simp [verdict, hr])
   | none => rw [hr] at hd; cases hd; exact decides_pass _ _ (by simp [verdict, hr])
   | notIterable => rw [hr] at hd; cases hd; exact decides_pass _ _ (by simp [verdict, hr])
-  | badPairs => rw [hr] at hd; cases hd
-  | pairs ks nt =>
-    cases nt with
-    | true => exact absurd hr (hraw ks)
+  | badPairs => rw [hr] at hd; cases hd; exact decides_pass _ _ (by simp [verdict, hr])
+  | pairs ks =>
+    rw [hr] at hd
+    simp only [Option.some.injEq] at hd
+    subst hd
+    have h1 := diffKeys_isEmpty ks (schemaVals e.schemaKeys)
+    have h2 := diffKeys_isEmpty (schemaVals e.schemaKeys) ks
+    simp only [memKey_schema] at h1
+    rw [all_schema_given] at h2
+    have hsk : sameKeySet ks (schemaVals e.schemaKeys) =
+        (ks.all (declared e.schemaKeys) && e.schemaKeys.all (given ks)) := by
+      unfold sameKeySet
+      simp only [memKey_schema, all_schema_given]
+    cases hsame : sameKeySet ks (schemaVals e.schemaKeys) with
+    | true =>
+      rw [← hsk, hsame]
+      exact decides_pass _ _ (by simp [verdict, hr, hsame])
     | false =>
-      rw [hr] at hd
-      simp only [Option.some.injEq] at hd
-      subst hd
-      have h1 := diffKeys_isEmpty ks e.schemaKeys
-      have h2 := diffKeys_isEmpty e.schemaKeys ks
-      cases hsame : sameKeySet ks e.schemaKeys with
-      | true =>
-        have : (ks.all (fun k => e.schemaKeys.contains k) &&
-            e.schemaKeys.all (fun k => ks.contains k)) = true := hsame
-        rw [this]
-        exact decides_pass _ _ (by simp [verdict, hr, hsame])
-      | false =>
-        have hf : (ks.all (fun k => e.schemaKeys.contains k) &&
-            e.schemaKeys.all (fun k => ks.contains k)) = false := hsame
-        rw [hf]
-        have hne : ¬ ((diffKeys e.schemaKeys ks).isEmpty = true ∧
-            (diffKeys ks e.schemaKeys).isEmpty = true) := by
-          rw [h1, h2]
-          intro ⟨a, b⟩
-          rw [a, b] at hf
-          cases hf
-        have : ((diffKeys e.schemaKeys ks).isEmpty && (diffKeys ks e.schemaKeys).isEmpty) = false := by
-          cases ha : (diffKeys e.schemaKeys ks).isEmpty <;>
-            cases hb : (diffKeys ks e.schemaKeys).isEmpty <;> simp_all
-        exact decides_fail _ _ _ _ (by
-          simp only [verdict, hr, Bool.false_eq_true, if_false, hsame, this]
-          rfl)
+      rw [← hsk, hsame]
+      have hf : (ks.all (declared e.schemaKeys) && e.schemaKeys.all (given ks)) = false := by
+        rw [← hsk]; exact hsame
+      have : ((diffKeys (schemaVals e.schemaKeys) ks).isEmpty &&
+          (diffKeys ks (schemaVals e.schemaKeys)).isEmpty) = false := by
+        rw [h1, h2, Bool.and_comm]; exact hf
+      exact decides_fail _ _ _ _ (by
+        simp only [verdict, hr, Bool.false_eq_true, if_false, hsame, this]
+        rfl)
 
 /-! ### number.py -/
 
@@ -589,18 +649,10 @@ theorem decides_luhn10 (e : View) (d) (hd : documented .luhn10 e = some d) :
 
 /-! ### the property theorem -/
 
-/-- the side conditions that exclude the recorded defects D-C15-7 (MapEqual's own transform),
-    D-C15-6 (a raw key that is not text) and labels that are not text in a MapEqual message -/
-structure InScope (v : V) (e : View) : Prop where
-  notMapEqualDefault : v ≠ .mapEqual .element
-  textKeys : ∀ ks, e.raw ≠ .pairs ks true
-  textLabels : ∀ g, some g ∈ e.fields → ∃ s, g.label = .str s
-
-/-- **decides_partial** — for every validator class, every parameterisation and every element
-    view: whenever the documentation makes a promise (`documented v e = some d`), the validator
+/-- **decides** — for every validator class, every parameterisation and every element view:
+    whenever the documentation makes a promise (`documented v e = some d`), the validator
     returns exactly the verdict `d`, without raising, and calls `note_error` iff `d` is false. -/
-theorem decides_partial (v : V) (e : View) (d : Bool) (hs : InScope v e)
-    (hd : documented v e = some d) : Decides v e d := by
+theorem decides (v : V) (e : View) (d : Bool) (hd : documented v e = some d) : Decides v e d := by
   cases v with
   | present => exact decides_present e d hd
   | isTrue => exact decides_isTrue e d hd
@@ -615,14 +667,13 @@ theorem decides_partial (v : V) (e : View) (d : Bool) (hs : InScope v e)
   | valueGreaterThan b => exact decides_valueGreaterThan b e d hd
   | valueAtLeast b => exact decides_valueAtLeast b e d hd
   | valueBetween a b i => exact decides_valueBetween a b i e d hd
-  | mapEqual k =>
-    exact decides_mapEqual k (fun h => hs.notMapEqualDefault (by rw [h])) e d hs.textLabels hd
+  | mapEqual k => exact decides_mapEqual k e d hd
   | notDuplicated => exact decides_notDuplicated e d hd
   | hasAtLeast m => exact decides_hasAtLeast m e d hd
   | hasAtMost m => exact decides_hasAtMost m e d hd
   | hasBetween a b => exact decides_hasBetween a b e d hd
-  | setWithKnownFields => exact decides_setWithKnownFields e d hs.textKeys hd
-  | setWithAllFields => exact decides_setWithAllFields e d hs.textKeys hd
+  | setWithKnownFields => exact decides_setWithKnownFields e d hd
+  | setWithAllFields => exact decides_setWithAllFields e d hd
   | luhn10 => exact decides_luhn10 e d hd
   | isEmail _ => simp [documented] at hd
   | urlValidator _ _ => simp [documented] at hd
@@ -630,7 +681,7 @@ theorem decides_partial (v : V) (e : View) (d : Bool) (hs : InScope v e)
   | urlCanonicalizer _ => simp [documented] at hd
 
 /-- non-vacuity: an Integer that did not convert (`value None`, text kept in `u`) against
-    `ValueLessThan(4)` — documented false, in scope, and the model says so -/
+    `ValueLessThan(4)` — documented false, and the model says so -/
 example :
     let e : View := { value := .none, u := "abc".toList, label := .str "n".toList }
     documented (.valueLessThan (.int 4)) e = some false ∧
@@ -640,27 +691,28 @@ example :
 def C15_Full : Prop :=
   ∀ (v : V) (e : View) (d : Bool), documented v e = some d → Decides v e d
 
-/-- D-C15-7: `MapEqual` with its own default transform raises TypeError on two equal fields -/
-theorem C15_full_fails : ¬ C15_Full := by
-  intro h
-  let f : FieldView := { value := .str "x".toList, u := "x".toList, label := .str "a".toList }
-  have := h (.mapEqual .element) { fields := [some f, some f] } true (by decide)
-  obtain ⟨note, hv, _⟩ := this
-  simp [verdict, resolveFields, bind, Except.bind, f] at hv
+/-- the full statement holds of the code as it is now -/
+theorem C15_full : C15_Full := decides
 
-/-- D-C15-6: a raw key that is not text makes the SetWith… validators raise TypeError although
-    the documentation promises the verdict "unexpected" -/
-theorem setWith_nontext_key_raises (e : View) (ks : List Str) (h : e.raw = .pairs ks true) :
-    documented .setWithKnownFields e = some false ∧
-    verdict .setWithKnownFields e = .error .typeError ∧
-    verdict .setWithAllFields e = .error .typeError := by
-  simp [documented, verdict, h]
+/-- witness of the fixed D-C15-7: `MapEqual` with its own default transform on two equal
+    fields now returns True -/
+example :
+    let f : FieldView := { value := .str "x".toList, u := "x".toList, label := .str "a".toList }
+    (verdict (.mapEqual .element) { fields := [some f, some f] }).toOption.map (·.1) = some true := by
+  decide
 
-/-- D-C15-5: raw items that are not pairs escape as ValueError (the documentation makes no
-    promise about the verdict, but promises a verdict) -/
-theorem setWith_bad_pairs_raises (e : View) (h : e.raw = .badPairs) :
-    verdict .setWithKnownFields e = .error .valueError ∧
-    verdict .setWithAllFields e = .error .valueError := by
+/-- witness of the fixed D-C15-6: a raw key that is not text is reported as unexpected, by its
+    `str()` -/
+theorem setWith_nontext_key_reported :
+    (verdict .setWithKnownFields { raw := .pairs [.int 1], schemaKeys := ["a".toList] }).toOption.map
+      (fun r => (r.1, r.2.map (·.info))) =
+    some (false, some [("unexpected".toList, .str ['1']), ("n_unexpected".toList, .int 1)]) := by
+  decide
+
+/-- witness of the fixed D-C15-5: raw items that are not pairs are treated like a raw value that
+    is not iterable — deemed valid, no exception -/
+theorem setWith_bad_pairs_valid (e : View) (h : e.raw = .badPairs) :
+    verdict .setWithKnownFields e = pass ∧ verdict .setWithAllFields e = pass := by
   simp [verdict, h]
 
 /-- **value_preserved**: apart from the canonicalising URL validator no validator changes the
@@ -738,14 +790,14 @@ theorem messages (table : List BuiltinMsg) (v : V) (e : View) (errors : List Str
                 Flatland.C16.Proofs.expandMessage_ok_expansion _ _ _ hx
               exact Or.inr ⟨s, u, text, segs, rfl, addError_spec errors s, hp, hs⟩
 
-/-- **exactly one message on failure**: in scope of the documentation, a false verdict always
+/-- **exactly one message on failure**: a (documented) false verdict always
     completes and leaves the error list extended by exactly one fully expanded message (or
     unchanged if that very text was already recorded) -/
-theorem false_verdict_records_one (v : V) (e : View) (errors : List Str) (hs : InScope v e)
+theorem false_verdict_records_one (v : V) (e : View) (errors : List Str)
     (hd : documented v e = some false) :
     ∃ o s, run v e errors = .ok o ∧ o.verdict = false ∧ o.value = valueAfter v e ∧
       (o.errors = errors ∨ o.errors = (if s ∈ errors then errors else errors ++ [s])) := by
-  obtain ⟨note, hv, hiff⟩ := decides_partial v e false hs hd
+  obtain ⟨note, hv, hiff⟩ := decides v e false hd
   cases note with
   | none => exact absurd (hiff.2 rfl) (by simp)
   | some n =>
@@ -763,11 +815,11 @@ theorem false_verdict_records_one (v : V) (e : View) (errors : List Str) (hs : I
 
 /-- a true verdict records nothing (corollary of `messages` + the note/verdict link) -/
 theorem true_verdict_records_nothing (table : List BuiltinMsg) (v : V) (e : View)
-    (errors : List Str) (o : Outcome) (d : Bool) (hs : InScope v e)
+    (errors : List Str) (o : Outcome) (d : Bool)
     (hd : documented v e = some d) (h : runWith table v e errors = .ok o) (ht : o.verdict = true) :
     o.errors = errors := by
   obtain ⟨note, hv, _, hnone, _⟩ := messages table v e errors o h
-  obtain ⟨note', hv', hiff⟩ := decides_partial v e d hs hd
+  obtain ⟨note', hv', hiff⟩ := decides v e d hd
   rw [hv] at hv'
   cases hv'
   exact hnone (hiff.1 ht)
